@@ -302,7 +302,7 @@ func bigNeg(in *Interp, fn *ssa.Function, a []Value) Value {
 	z := in.bigRecv(a[0])
 	x := in.bigOf(a[1])
 	in.onWrite(z)
-	*z = Big{T: in.tc.IntNeg(x.T)}
+	*z = Big{T: in.tc.IntNeg(x.T), FromBytes: x.FromBytes}
 	return z
 }
 
@@ -375,9 +375,6 @@ func bigUint64(in *Interp, fn *ssa.Function, a []Value) Value {
 func bigInt64(in *Interp, fn *ssa.Function, a []Value) Value {
 	x := in.bigOf(a[0])
 	lo := in.low64(x)
-	if x.FromBytes != nil {
-		return lo
-	}
 	neg := in.tc.IntCmp("<", x.T, in.tc.IntConst64(0))
 	return in.mkBV(in.tc.Ite(neg, in.tc.BVNeg(in.bvTerm(lo)), in.bvTerm(lo)))
 }
